@@ -108,6 +108,214 @@ def n_perms(alleles):
     return out
 
 
+def wiring(chk, r, n):
+    """what the call sampler's layers hand to each other.  The Python source of `compound_step`, `mcmc_sampler` and
+    `CallingMCMC.fit` is run with its callee replaced by a recorder: the kernels are verified on arguments the harness
+    chooses, so it remains to see that the callers hand over the sample's own reads / counts / inbreeding / frequencies /
+    haplotypes, visit every allele copy once per compound step, and record what the callee returned."""
+    import inspect
+    from mchap.calling import mcmc
+    from mchap.calling import classes as ccls
+
+    def same(a, b):
+        if a is None or b is None:
+            return a is None and b is None
+        a, b = np.asarray(a), np.asarray(b)
+        return a.shape == b.shape and bool(np.array_equal(a, b, equal_nan=(a.dtype.kind == "f")))
+
+    for it in range(n):
+        n_alleles, haps, ploidy, kind, freqs, F, alleles, reads, counts = gen_call_instance(r, max_haps=6)
+        if len(haps) < 2:
+            continue
+        if it % 3 == 0:
+            freqs = None
+        if F == 0:
+            F = r.choice([0.0, 0.15, 0.4])
+        harr = np.array(haps, dtype=np.int8)
+        st = it % 2
+        n_h = len(haps)
+        passed = {"haplotypes": harr, "reads": reads, "read_counts": counts, "inbreeding": F, "frequencies": freqs}
+        case = {"ploidy": ploidy, "n_haplotypes": n_h, "step_type": st, "inbreeding": F, "frequencies": None if freqs is None else freqs.tolist(),
+                "read_counts": counts.tolist()}
+
+        def wrong(d, names):
+            for k in names:
+                v, w = passed[k], d.get(k)
+                if (isinstance(v, float) and not (isinstance(w, (int, float, np.floating)) and float(w) == v)) or \
+                        (not isinstance(v, float) and not same(v, w)):
+                    return k
+            return None
+
+        # ---- compound_step -> gibbs_options / mh_options
+        f = mcmc.compound_step.py_func
+        g = f.__globals__
+        orig = {k: g[k] for k in ("gibbs_options", "mh_options")}
+        sigs = {k: inspect.signature(orig[k].py_func) for k in orig}
+        calls = []
+
+        def make(kind_):
+            def rec(*a, **kw):
+                d = dict(sigs[kind_].bind(*a, **kw).arguments)
+                calls.append((kind_, d, d["genotype_alleles"].copy()))
+                d["probabilities_array"][:] = 1.0 / n_h
+                d["llks_array"][:] = 1000.0 + np.arange(n_h)
+                d["lpriors_array"][:] = 0.0
+            return rec
+        geno = np.array(sorted(alleles), dtype=np.int64)
+        before = geno.copy()
+        cache_obj = {-1: float("nan")}
+        g["gibbs_options"], g["mh_options"] = make("gibbs_options"), make("mh_options")
+        try:
+            np.random.seed(r.randrange(2 ** 31))
+            ret = f(geno, harr, reads, counts, F, frequencies=freqs, llk_cache=cache_obj, step_type=st)
+        finally:
+            g.update(orig)
+        chk.count("wiring:compound_step")
+        chk.case(("wiring", "compound", it, ploidy, n_h, st), ploidy >= 2)
+        want_kind = "gibbs_options" if st == 0 else "mh_options"
+        slots = [int(d["variable_allele"]) for _, d, _ in calls]
+        bad = None
+        if [k for k, _, _ in calls] != [want_kind] * ploidy:
+            bad = "the kernel of the requested step type is not called once per allele copy"
+        elif sorted(slots) != list(range(ploidy)):
+            bad = "the allele copies updated in one compound step are not every copy exactly once"
+        else:
+            cur = before.copy()
+            for j, (_, d, seen) in enumerate(calls):
+                w = wrong(d, ("haplotypes", "reads", "read_counts", "inbreeding", "frequencies"))
+                if w:
+                    bad = f"the kernel is handed a {w} that is not the one compound_step was called with"
+                    break
+                if d.get("llk_cache") is not cache_obj:
+                    bad = "the kernel is not handed the likelihood cache compound_step was called with"
+                    break
+                if d["genotype_alleles"] is not geno:
+                    bad = "the kernel is not handed the genotype array that is updated in place"
+                    break
+                if not np.array_equal(seen, cur):
+                    bad = "the genotype a kernel sees is not the genotype left by the previous updates of this compound step"
+                    break
+                # the update that followed this call: slot k takes the drawn allele (only that slot may change)
+                nxt = calls[j + 1][2] if j + 1 < len(calls) else None
+                if nxt is not None:
+                    diff = np.nonzero(nxt != cur)[0].tolist()
+                    if any(x != slots[j] for x in diff):
+                        bad = "an update changes a copy other than the one its kernel was computed for"
+                        break
+                    cur = nxt
+            if bad is None:
+                if not np.array_equal(geno, np.sort(geno)):
+                    bad = "the genotype is not sorted after the compound step"
+                elif not (1000.0 <= float(ret) < 1000.0 + n_h and int(round(float(ret) - 1000.0)) in geno.tolist()):
+                    bad = "the value returned is not the kernel's likelihood entry of an allele now in the genotype"
+        if bad:
+            chk.violation("compound_step (call sampler): " + bad, {**case, "slots": slots, "before": before.tolist(), "after": geno.tolist(),
+                                                                 "returned": float(ret)}, "C02/wiring/compound_step")
+
+        # ---- mcmc_sampler -> compound_step
+        f2 = mcmc.mcmc_sampler.py_func
+        g2 = f2.__globals__
+        orig_c = g2["compound_step"]
+        sig_c = inspect.signature(orig_c.py_func)
+        calls2 = []
+
+        def rec_c(*a, **kw):
+            d = dict(sig_c.bind(*a, **kw).arguments)
+            ga = d["genotype_alleles"]
+            calls2.append((d, ga.copy()))
+            ga[:] = np.sort((ga + 1 + len(calls2)) % n_h)
+            return -float(len(calls2))
+        n_steps = 4
+        use_cache = bool(it % 2)
+        init = before.copy()
+        g2["compound_step"] = rec_c
+        try:
+            tr_g, tr_l = f2(init, harr, reads, counts, F, frequencies=freqs, n_steps=n_steps, cache=use_cache, step_type=st)
+        finally:
+            g2["compound_step"] = orig_c
+        chk.count("wiring:mcmc_sampler")
+        chk.case(("wiring", "sampler", it, ploidy, n_h, st, use_cache), True)
+        bad = None
+        if len(calls2) != n_steps:
+            bad = "not one compound step per recorded step"
+        elif not np.array_equal(init, before):
+            bad = "the caller's initial genotype is modified"
+        else:
+            cur = before.copy()
+            cache0 = calls2[0][0].get("llk_cache")
+            for j, (d, seen) in enumerate(calls2):
+                w = wrong(d, ("haplotypes", "reads", "read_counts", "inbreeding", "frequencies"))
+                if w:
+                    bad = f"compound_step is handed a {w} that is not the one mcmc_sampler was called with"
+                    break
+                if int(d.get("step_type", 0)) != st:
+                    bad = "compound_step is not handed the requested step type"
+                    break
+                if not np.array_equal(seen, cur):
+                    bad = "a compound step does not start from the state the previous one left"
+                    break
+                c_ = d.get("llk_cache")
+                if (use_cache and (c_ is None or c_ is not cache0)) or (not use_cache and c_ is not None):
+                    bad = "the likelihood cache handed to the compound steps is not one cache per run (or is used although switched off)"
+                    break
+                cur = np.sort((seen + 1 + (j + 1)) % n_h)
+                if not np.array_equal(np.asarray(tr_g[j]), cur) or float(tr_l[j]) != -float(j + 1):
+                    bad = "the trace does not record the state and likelihood the compound step left"
+                    break
+        if bad:
+            chk.violation("mcmc_sampler (call sampler): " + bad, {**case, "cache": use_cache}, "C02/wiring/mcmc_sampler")
+
+        # ---- CallingMCMC.fit -> greedy_caller / mcmc_sampler
+        gm = ccls.CallingMCMC.fit.__globals__
+        orig_m, orig_g = gm["mcmc_sampler"], gm["greedy_caller"]
+        sig_m, sig_g = inspect.signature(orig_m.py_func), inspect.signature(orig_g.py_func)
+        calls3, calls_g = [], []
+        start = np.array(sorted(r.randrange(n_h) for _ in range(ploidy)), dtype=np.int32)
+
+        def rec_m(*a, **kw):
+            d = dict(sig_m.bind(*a, **kw).arguments)
+            calls3.append(d)
+            k = len(calls3)
+            return np.full((int(d["n_steps"]), ploidy), k % n_h, dtype=np.int32), np.full(int(d["n_steps"]), -float(k))
+
+        def rec_g(*a, **kw):
+            calls_g.append(dict(sig_g.bind(*a, **kw).arguments))
+            return start
+        n_chains, steps = r.choice([1, 2, 3]), 5
+        gm["mcmc_sampler"], gm["greedy_caller"] = rec_m, rec_g
+        try:
+            model = ccls.CallingMCMC(ploidy=ploidy, haplotypes=harr, inbreeding=F, frequencies=freqs, steps=steps, chains=n_chains,
+                                     random_seed=11, step_type="Gibbs" if st == 0 else "Metropolis-Hastings")
+            given = (it % 4 == 1)
+            tr = model.fit(reads, read_counts=counts, initial=start.copy() if given else None)
+        finally:
+            gm["mcmc_sampler"], gm["greedy_caller"] = orig_m, orig_g
+        chk.count("wiring:CallingMCMC.fit")
+        chk.case(("wiring", "fit", it, ploidy, n_h, st, n_chains, given), True)
+        bad = None
+        if len(calls3) != n_chains:
+            bad = "not one sampler run per chain"
+        elif (len(calls_g) != 0) if given else (len(calls_g) != 1):
+            bad = "the initial state is not the given one / not taken once from greedy_caller"
+        else:
+            for d in calls_g:
+                w = wrong(d, ("haplotypes", "reads", "read_counts", "inbreeding"))
+                if w or int(d["ploidy"]) != ploidy:
+                    bad = f"greedy_caller is handed a {w or 'ploidy'} that is not the model's / the sample's"
+            for k, d in enumerate(calls3):
+                w = wrong(d, ("haplotypes", "reads", "read_counts", "inbreeding", "frequencies"))
+                if w:
+                    bad = f"mcmc_sampler is handed a {w} that is not the model's / the sample's"
+                elif int(d["n_steps"]) != steps or int(d.get("step_type", 0)) != st:
+                    bad = "mcmc_sampler is not handed the model's number of steps / step type"
+                elif not np.array_equal(np.asarray(d["genotype_alleles"]), start):
+                    bad = "a chain does not start from the initial state"
+                elif not (np.asarray(tr.genotypes[k]) == (k + 1) % n_h).all() or not (np.asarray(tr.llks[k]) == -float(k + 1)).all():
+                    bad = "the trace does not hold what the chains returned, chain by chain"
+        if bad:
+            chk.violation("CallingMCMC.fit: " + bad, {**case, "chains": n_chains, "initial_given": given}, "C02/wiring/fit")
+
+
 def run(tier, replay=None):
     from mchap.calling import mcmc
 
@@ -396,6 +604,8 @@ def run(tier, replay=None):
                                   {**extra, "key": bad[0], "genotype_of_key": bad[1], "cached": bad[2]}, "C02/compound/cache-entry")
 
     lap("compound_step")
+    wiring(chk, C.rng(PROP + ":wiring"), {"warm": 2, "quick": 40, "thorough": 400}[tier])
+    lap("wiring")
     # ---------------- mcmc_sampler as CallingMCMC.fit runs it: initial state from greedy_caller (int32), cache on, a short trace;
     # every recorded state is sorted, within the panel, of positive prior, and its recorded llk is its likelihood
     n4 = {"warm": 1, "quick": 16, "thorough": 160}[tier]
